@@ -9,6 +9,8 @@
 (*        "forged"  a block with that sequence number signed by another key*)
 (*        "alien"   a publisher-signed block that does not extend the chain*)
 (*                  (its parent is not the follower's block seq-1)         *)
+(*        "rebodied" the publisher's genuine header and signature with     *)
+(*                  another body of individually valid transactions        *)
 (* Functional core: Process(head, items) - what one GIVB does to the head. *)
 (***************************************************************************)
 EXTENDS Integers, Sequences, FiniteSets
